@@ -25,6 +25,8 @@ SCHEMA = '''<xsd:import namespace="http://schemas.xmlsoap.org/soap/encoding/"/>
 <xsd:complexType name="Person"><xsd:sequence><xsd:element name="name" type="xsd:string"/>
 <xsd:element name="age" type="xsd:int"/><xsd:element name="home" type="x:Addr" minOccurs="0"/>
 <xsd:element name="tags" type="x:ArrayOfString" minOccurs="0"/></xsd:sequence></xsd:complexType>
+<xsd:complexType name="Employee"><xsd:complexContent><xsd:extension base="x:Person"><xsd:sequence>
+<xsd:element name="dept" type="xsd:string"/></xsd:sequence></xsd:extension></xsd:complexContent></xsd:complexType>
 <xsd:complexType name="Addr"><xsd:sequence><xsd:element name="city" type="xsd:string"/>
 <xsd:element name="zip" type="xsd:int"/></xsd:sequence></xsd:complexType>
 <xsd:complexType name="ArrayOfString"><xsd:complexContent><xsd:restriction base="soapenc:Array">
@@ -48,6 +50,8 @@ def gen_person(rng, depth=0):
     if rng.random() < 0.6:
         fields.append(("tags", ("array", "xsd:string", [("str", rng.choice(["t1", "t2", "x y"]))
                                                         for _ in range(rng.choice([0, 1, 2, 3]))])))
+    if depth == 0 and rng.random() < 0.25:
+        return ("struct", "Employee", fields + [("dept", ("str", rng.choice(["R&D", "ops"])))])
     return ("struct", "Person", fields)
 
 
@@ -72,17 +76,22 @@ class Writer:
         self.by_content = {}
         self.n = 0
         self.outlined = 0
+        self.xsi = rng.choice(["xsi", "xsi", "i"])           # the schema-instance namespace under another prefix
+        self.local = rng.random() < 0.3                       # declare prefixes on the element that uses them
 
     def new_id(self):
         self.n += 1
         return {"num": "id%d" % self.n, "guid": "g-%04x-ref" % (self.n * 7919), "plain": "r%d" % self.n}[self.id_style]
 
     def type_attrs(self, v):
+        decl = ""
+        if self.local:
+            decl = ' xmlns:%s="%s" xmlns:x="%s" xmlns:xsd="%s" xmlns:soapenc="%s"' % (self.xsi, XSI, TNS, XSD, ENC)
         if v[0] == "struct":
-            return ' xsi:type="x:%s"' % v[1]
+            return decl + ' %s:type="x:%s"' % (self.xsi, v[1])
         if v[0] == "array":
-            return ' xsi:type="soapenc:Array" soapenc:arrayType="%s[%d]"' % (v[1], len(v[2]))
-        return ' xsi:type="xsd:%s"' % ("string" if v[0] == "str" else "int")
+            return decl + ' %s:type="soapenc:Array" soapenc:arrayType="%s[%d]"' % (self.xsi, v[1], len(v[2]))
+        return decl + ' %s:type="xsd:%s"' % (self.xsi, "string" if v[0] == "str" else "int")
 
     def content(self, v):
         if v[0] == "struct":
@@ -106,7 +115,8 @@ class Writer:
             self.outlined += 1
             return '<%s href="#%s"/>' % (name, rid)
         ta = self.type_attrs(v)
-        if name == "item" and v[0] != "array" and self.rng.random() < self.untyped:
+        if name == "item" and v[0] != "array" and not (v[0] == "struct" and v[1] != "Person") \
+                and self.rng.random() < self.untyped:
             ta = ""       # untyped array item: its type comes from the enclosing arrayType
         return "<%s%s>%s</%s>" % (name, ta, self.content(v), name)
 
@@ -115,8 +125,10 @@ class Writer:
             TNS, self.element("return", v), '<extra href="#nowhere"/>' if dangling else "")
         mr = "".join(self.multirefs)
         body = (mr + resp) if self.placement == "before" else (resp + mr)
-        return ('<e:Envelope xmlns:e="%s" xmlns:xsi="%s" xmlns:xsd="%s" xmlns:soapenc="%s" xmlns:x="%s">'
-                '<e:Body>%s</e:Body></e:Envelope>' % (xmlread.ENV11, XSI, XSD, ENC, TNS, body)).encode("utf-8")
+        if self.local:
+            return ('<e:Envelope xmlns:e="%s"><e:Body>%s</e:Body></e:Envelope>' % (xmlread.ENV11, body)).encode("utf-8")
+        return ('<e:Envelope xmlns:e="%s" xmlns:%s="%s" xmlns:xsd="%s" xmlns:soapenc="%s" xmlns:x="%s">'
+                '<e:Body>%s</e:Body></e:Envelope>' % (xmlread.ENV11, self.xsi, XSI, XSD, ENC, TNS, body)).encode("utf-8")
 
 
 def canon(v):
@@ -221,6 +233,25 @@ def run(ctx):
     for meta, real, ans in zip(metas, reals, ctx.driver.ask(reqs)):
         if ans is not None:
             ctx.compare("MultiRef.process", meta, real, strip_ids(ans))
+    # a reference that dangles in this reply stays dangling, whatever earlier replies on the same client defined
+    head = ('<e:Envelope xmlns:e="%s" xmlns:xsi="%s" xmlns:xsd="%s" xmlns:soapenc="%s" xmlns:x="%s"><e:Body>'
+            '<m:fResponse xmlns:m="%s"><return xsi:type="x:Person"><name xsi:type="xsd:string">N</name>'
+            '<age xsi:type="xsd:int">5</age><home href="#id1"/></return></m:fResponse>'
+            % (xmlread.ENV11, XSI, XSD, ENC, TNS, TNS))
+    with_ref = (head + '<multiRef id="id1" soapenc:root="0" xsi:type="x:Addr"><city xsi:type="xsd:string">Rome</city>'
+                '<zip xsi:type="xsd:int">1</zip></multiRef></e:Body></e:Envelope>').encode()
+    without = (head + '</e:Body></e:Envelope>').encode()
+    fresh = wsdlkit.client(make_wsdl("x:Person"))
+    used = clients["Person"]
+    ctx.case("stale-catalogue", True)
+    try:
+        want = canon(fresh.service.f("x", __inject={"reply": without}))
+        used.service.f("x", __inject={"reply": with_ref})
+        got = canon(used.service.f("x", __inject={"reply": without}))
+    except Exception as e:
+        want, got = "decoded", "%s: %s" % (type(e).__name__, e)
+    if got != want:
+        ctx.fail("a dangling href was resolved from an earlier reply's multiRef", {"doc": without.decode()}, got, want)
     # arrays: item typing by arrayType and empty arrays
     c = clients["People"]
     doc = Writer(rng, 0, False, "num", "after", True).envelope(("array", "x:Person", []))
